@@ -215,6 +215,9 @@ func (p c06) Gen(r *simhook.Rand, tier string, idx int) harness.Scenario {
 			// the store matches endpoints by address and hands on whatever object the remover gave: its type may
 			// differ from the stored one
 			f.AsBackup = r.Chance(1, 3)
+			if r.Chance(1, 4) {
+				f.Extra = []string{"dup", "unknown"}[r.Intn(2)]
+			}
 		case 1:
 			f.Kind, f.Node = "host-add", r.Intn(nb)
 			// an endpoint may be announced again with the other type (main <-> backup), no removal in between
